@@ -1460,9 +1460,14 @@ class SpaceManager(SharedSpaceOperations):
                         c, defined_only=True)[0] is not cells):
                 continue   # c is overridden or derived from another cells
             space.clear_subs_rootitems()
-            space.cells[cells.name].on_set_property(
-                flags, define, func, enable_cache
-            )
+            if c is cells:
+                c.on_set_property(flags, define, func, enable_cache)
+            else:
+                # c may have been derived from another cells so far
+                # if cells was derived itself: take all the properties
+                c.on_set_property(
+                    UserCellsImpl.PROP_FORMULA | UserCellsImpl.PROP_CACHE,
+                    False, cells.formula, cells.is_cached)
             define = False  # Do not define derived cells
 
     def set_cells_formula(self, cells, func):
